@@ -1,0 +1,149 @@
+//! Verification hooks. Compiled only with `--cfg icy_engine_verif`; the crate
+//! behaves exactly as before when the cfg is absent.
+//!
+//! * work counter / work budget (`tick`)
+//! * nesting guard (`DepthGuard`)
+//! * virtual blocking (`on_block`)
+//! * sixel decode gate (`sixel_gate`)
+use std::cell::Cell;
+use std::sync::{Arc, RwLock};
+
+use crate::Position;
+
+/// Payload of the panic raised when a work budget is exceeded.
+#[derive(Debug, Clone)]
+pub struct WorkBudgetExceeded {
+    pub ticks: u64,
+    pub budget: u64,
+}
+
+/// Payload of the panic raised when the nesting budget is exceeded.
+#[derive(Debug, Clone)]
+pub struct DepthBudgetExceeded {
+    pub site: &'static str,
+    pub depth: u32,
+}
+
+/// Payload of the panic raised when the engine wants to block longer than allowed.
+#[derive(Debug, Clone)]
+pub struct BlockBudgetExceeded {
+    pub requested_ms: u64,
+}
+
+thread_local! {
+    static TICKS: Cell<u64> = const { Cell::new(0) };
+    static BUDGET: Cell<u64> = const { Cell::new(0) };
+    static DEPTH: Cell<u32> = const { Cell::new(0) };
+    static MAX_DEPTH: Cell<u32> = const { Cell::new(0) };
+    static DEPTH_BUDGET: Cell<u32> = const { Cell::new(0) };
+    static BLOCK_MS: Cell<u64> = const { Cell::new(0) };
+    static BLOCK_BUDGET: Cell<i64> = const { Cell::new(-1) };
+}
+
+/// One unit of per-cell / per-pixel / per-character work.
+#[inline]
+pub fn tick(n: u64) {
+    TICKS.with(|t| {
+        let v = t.get().wrapping_add(n);
+        t.set(v);
+        let b = BUDGET.with(Cell::get);
+        if b != 0 && v > b {
+            // disarm so that unwinding code that ticks again does not double panic
+            BUDGET.with(|c| c.set(0));
+            std::panic::panic_any(WorkBudgetExceeded { ticks: v, budget: b });
+        }
+    });
+}
+
+pub fn ticks() -> u64 {
+    TICKS.with(Cell::get)
+}
+
+pub fn reset_ticks() {
+    TICKS.with(|t| t.set(0));
+}
+
+/// 0 = no budget
+pub fn set_work_budget(budget: u64) {
+    BUDGET.with(|b| b.set(budget));
+}
+
+pub fn set_depth_budget(budget: u32) {
+    DEPTH_BUDGET.with(|b| b.set(budget));
+}
+
+pub fn max_depth() -> u32 {
+    MAX_DEPTH.with(Cell::get)
+}
+
+pub fn reset_depth() {
+    DEPTH.with(|d| d.set(0));
+    MAX_DEPTH.with(|d| d.set(0));
+}
+
+pub struct DepthGuard;
+
+impl DepthGuard {
+    pub fn enter(site: &'static str) -> Self {
+        let d = DEPTH.with(|d| {
+            let v = d.get() + 1;
+            d.set(v);
+            v
+        });
+        MAX_DEPTH.with(|m| {
+            if d > m.get() {
+                m.set(d);
+            }
+        });
+        let b = DEPTH_BUDGET.with(Cell::get);
+        if b != 0 && d > b {
+            DEPTH.with(|d| d.set(d.get() - 1));
+            std::panic::panic_any(DepthBudgetExceeded { site, depth: d });
+        }
+        DepthGuard
+    }
+}
+
+impl Drop for DepthGuard {
+    fn drop(&mut self) {
+        DEPTH.with(|d| d.set(d.get().saturating_sub(1)));
+    }
+}
+
+/// Called right before the engine blocks the calling thread for `ms` milliseconds.
+pub fn on_block(ms: u64) {
+    BLOCK_MS.with(|b| b.set(b.get().saturating_add(ms)));
+    let budget = BLOCK_BUDGET.with(Cell::get);
+    if budget >= 0 && ms > budget as u64 {
+        std::panic::panic_any(BlockBudgetExceeded { requested_ms: ms });
+    }
+}
+
+pub fn blocked_ms() -> u64 {
+    BLOCK_MS.with(Cell::get)
+}
+
+pub fn reset_blocked() {
+    BLOCK_MS.with(|b| b.set(0));
+}
+
+/// negative = no budget; otherwise a request to block longer than `budget_ms` raises `BlockBudgetExceeded`
+pub fn set_block_budget(budget_ms: i64) {
+    BLOCK_BUDGET.with(|b| b.set(budget_ms));
+}
+
+pub type SixelGate = Arc<dyn Fn(Position, &str) + Send + Sync>;
+
+static SIXEL_GATE: RwLock<Option<SixelGate>> = RwLock::new(None);
+
+pub fn set_sixel_gate(gate: Option<SixelGate>) {
+    *SIXEL_GATE.write().unwrap() = gate;
+}
+
+/// Called at the start of every sixel decode (on the decoding thread).
+pub fn sixel_gate(pos: Position, data: &str) {
+    let gate = SIXEL_GATE.read().unwrap().clone();
+    if let Some(gate) = gate {
+        gate(pos, data);
+    }
+}
